@@ -41,6 +41,10 @@ def run(chk, tier):
     chk.rule("R-PROG", "loop progress")
     nl = progloops.run(chk, P, ["topology-synthetic.c"])
     chk.floor("R-PROG", "in-scope loops", nl, 15)
+    chk.rule("R-ERRCLEAN", "a failing return does not bypass the function's own cleanup: once the function has jumped to a cleanup label (discovered: its code releases something), every later failing return has made the label's releases itself on every path (must-facts on completed calls) -- otherwise what was built so far leaks")
+    import errclean
+    nec = errclean.run(chk, P, ["topology-synthetic.c"])
+    chk.floor("R-ERRCLEAN", "failing returns past a cleanup jump", nec, 1)
     import uninit
     uninit.wire(chk, P, ["topology-synthetic.c"], 2)
     chk.decided += ["the level walk of the index parser never reads levels that were not written (sentinel planted before every call)",
